@@ -20,7 +20,7 @@ def run_matrix(name, h, s, r):
     data = cyc.floats(h, s)
     res_f = r * 2.0 ** -s
     try:
-        M, keys = getattr(lsm, cyc.MATRIX_API[name])(list(data), res_f)
+        M, keys = getattr(lsm, cyc.MATRIX_API[name])(cyc.as_container(list(data), h, s), res_f)
     except ValueError as e:
         return {'error': 'ValueError', 'msg': str(e)}
     except Exception as e:  # noqa
